@@ -170,7 +170,7 @@ func (c *ctl) ackAttempt(t *rapid.T) {
 		msg.ProofHeight = bridge.H(msg.ProofHeight.RevisionNumber, msg.ProofHeight.RevisionHeight+1000)
 	}
 	src := w.Chains[p.SrcIdx]
-	sb := w.Balance(p.SrcIdx, p.Token, p.Sender.Addr)
+	sb := w.SenderSide(p)
 	rb := []*big.Int{w.Balance(p.SrcIdx, p.FeeTok, w.Rels[0].Addr), w.Balance(p.SrcIdx, p.FeeTok, w.Rels[1].Addr)}
 	wasAcked := p.Acked
 	if variant == "genuine" && !wasAcked {
@@ -221,7 +221,7 @@ func (c *ctl) ackAttempt(t *rapid.T) {
 		if paid.Cmp(p.Fee) != 0 || other.Sign() != 0 {
 			m.Failf("ack of %s processed: fee %s, receiving relayer got %s, other relayer got %s", p.T, p.Fee, paid, other)
 		}
-		sd := new(big.Int).Sub(w.Balance(p.SrcIdx, p.Token, p.Sender.Addr), sb)
+		sd := new(big.Int).Sub(w.SenderSide(p), sb)
 		wantSd := big.NewInt(0)
 		if p.Ack.Code != 0 {
 			wantSd = p.Amount
